@@ -147,7 +147,14 @@ func runC07(c *core.Ctx) {
 		c.Check(okBi, "drop forgets the in-memory branch info", "T7 Pairing", f.Pos(), "bi = nil on every path (it is reloaded from the store)", "branch info changed by a dropped event survives the drop")
 		// whenever anything is unflushed: overlay dropped and callback invoked
 		drops := f.CallsTo("kvdb.FlushableKVStore.DropNotFlushed")
-		cbs := f.CallsTo("vecengine.Callbacks.OnDropNotFlushed")
+		// the callback invocation is the call whose callee value is the field Callbacks.OnDropNotFlushed, read
+		// in place (vi.callback.OnDropNotFlushed()) or through a single-definition local that holds the field
+		// (cb := vi.callback.OnDropNotFlushed; if cb != nil { cb() }); fieldNameOf looks through such locals
+		// (not through snapshots of a location the function writes), and so does the nil guard below
+		const cbField = "vecengine.Callbacks.OnDropNotFlushed"
+		cbs := f.CallsMatching(func(cs *core.CallSite) bool {
+			return !cs.IsConv && !cs.InGo && (cs.Name == cbField || fieldNameOf(f, cs.Call.Fun) == cbField)
+		})
 		c.Need(len(drops) == 1 && len(cbs) == 1, "DropNotFlushed drops the overlay and calls the callback")
 		nothing := func(ft core.Fact) bool {
 			// NotFlushedPairs() == 0
@@ -160,7 +167,7 @@ func runC07(c *core.Ctx) {
 			return k && lc.Equal(core.ParseLinCmp("pairs == 0"))
 		}
 		_, skipDrop := core.PathQuery{F: f, From: f.Entry(), Avoid: core.PointSet(drops[0].Pt), AvoidEdge: c04AllAltsMatch(f, nothing), TargetExit: true}.Find()
-		nilCB := fieldNilFact(f, "vecengine.Callbacks.OnDropNotFlushed", true)
+		nilCB := fieldNilFact(f, cbField, true)
 		_, skipCB := core.PathQuery{F: f, From: f.Entry(), Avoid: core.PointSet(cbs[0].Pt), AvoidEdge: c04AllAltsMatch(f, func(ft core.Fact) bool { return nothing(ft) || nilCB(ft) }), TargetExit: true}.Find()
 		c.Check(!skipDrop && !skipCB, "unflushed data => overlay dropped and caches notified", "T7 Pairing", f.Pos(), "unless nothing is unflushed, the overlay is dropped and OnDropNotFlushed runs", "unflushed index data can survive DropNotFlushed, or the caches are not told")
 		// vecfc side: covered by C05.drop (vector caches) + tmpid
